@@ -27,7 +27,7 @@ Upd(e) ==
     [] e.ev = "opend" ->
          /\ ended' = e.o :> clock @@ ended /\ clock' = clock + 1
          /\ res' = e.o :> [result |-> e.result, own |-> e.own, fresh |-> e.freshResult, freshOwn |-> e.freshOwn,
-                           closed |-> e.closed, nrec |-> e.nrec, code |-> e.code] @@ res
+                           closed |-> e.closed, nrec |-> e.nrec, freshNrec |-> e.freshNrec, code |-> e.code] @@ res
          /\ UNCHANGED <<tid, kind, plan, began, ids, dupid>>
     [] e.ev = "reqbegin" ->
          /\ ids' = ids \cup {e.id} /\ dupid' = (dupid \/ e.id \in ids)
@@ -80,10 +80,26 @@ C11_StallIsError ==
   \A a \in DOMAIN res : (FaultOf(a).stall > 0 /\ CleanBefore(a)) => res[a].result = "ioError"
 \* a framing error is never produced by the library's own reading
 C11_NoSpuriousNoProgress ==
-  kind \in {"c11", "c06"} => \A o \in DOMAIN res : (FaultOf(o).cut < 0 /\ FaultOf(o).corr = 0 /\ CleanBefore(o)) => res[o].result # "noProgress"
+  kind \in {"c11", "c06", "c11p"} => \A o \in DOMAIN res : (FaultOf(o).cut < 0 /\ FaultOf(o).corr = 0 /\ CleanBefore(o)) => res[o].result # "noProgress"
 \* an answer with a foreign correlation id is a framing error for a Conn used by one goroutine
 C11_WrongIdIsError ==
   kind = "c11" => \A o \in DOMAIN res : (FaultOf(o).corr # 0 /\ CleanBefore(o)) => Failed(o)
+
+\* How the network fragments a complete response (segment boundaries: the pieces arrive one by one, each within the
+\* deadline) is invisible: in a scenario (kinds "c11": one goroutine, "c11p": a second goroutine's request pipelined behind
+\* the fragmented response) whose only disturbance is fragmentation, and possibly injected error codes, every operation
+\* returns what it returns alone on a fresh connection that delivers its response in one piece: same outcome, same number
+\* of records, the same (own) payload.  A read position left inside or beyond the fragmented frame shows here as a
+\* failed, short or foreign result of that or of the next operation, or as a wait for bytes that are not part of the
+\* response until the deadline expires (an "ioError" where the baseline has a "response").
+OnlyFragmented ==
+  /\ \E i \in DOMAIN plan : plan[i].fault.split
+  /\ \A i \in DOMAIN plan : plan[i].fault.cut < 0 /\ plan[i].fault.stall = 0 /\ plan[i].fault.corr = 0
+C11_FragmentsAsWhole ==
+  (kind \in {"c11", "c11p"} /\ OnlyFragmented) =>
+    \A o \in DOMAIN res : res[o].fresh # "" =>
+       /\ res[o].result = res[o].fresh /\ res[o].own = res[o].freshOwn /\ res[o].nrec = res[o].freshNrec
+       /\ (res[o].result \in {"response", "kafkaError"} => ~res[o].closed)
 
 \* C17: a response cut before its end gives an error, never a result, a panic or a hang
 C17_CutIsError ==
